@@ -8,6 +8,7 @@ import (
 	"encoding/hex"
 	"fmt"
 	"strings"
+	"unicode/utf8"
 
 	"golang.org/x/mod/sumdb/tlog"
 )
@@ -119,11 +120,32 @@ func c09RandHash(r *Rand) tlog.Hash {
 	return h
 }
 
+// c09Lens: record lengths swept by generator and oracle (SHA-256 block / padding edges, buffer-size edges).
+var c09Lens = []int{0, 1, 31, 32, 33, 54, 55, 56, 63, 64, 65, 119, 120, 127, 128, 129, 255, 256, 257, 511, 512, 513,
+	1023, 1024, 1025, 4095, 4096, 4097, 65535, 65536}
+
+// c09BoundaryRecord returns a record of one of the boundary lengths (lengths above 1025 only one time in ten).
+func c09BoundaryRecord(r *Rand) string {
+	k := 25 // index of 4095
+	if r.Chance(10) {
+		k = len(c09Lens)
+	}
+	n := c09Lens[r.Intn(k)]
+	if r.Chance(30) {
+		return strings.Repeat(string(rune('a'+r.Intn(26))), n)
+	}
+	return c09RandBytes(r, n)
+}
+
 // c09Records returns a record sequence of length n with mixed contents.
 func c09Records(r *Rand, n int) []string {
 	out := make([]string, n)
 	for i := range out {
-		switch r.Intn(8) {
+		switch r.Intn(9) {
+		case 8:
+			out[i] = c09BoundaryRecord(r)
+		case 7:
+			out[i] = c09RandBytes(r, r.Intn(700)) // random length
 		case 0: // looks like an interior node: 0x01 || h || h
 			h := c09RandHash(r)
 			out[i] = "\x01" + string(h[:]) + string(h[:])
@@ -158,11 +180,24 @@ func c09RecTok(r *Rand, n int) (string, []string) {
 
 const c09B64 = "ABCDEFGHIJKLMNOPQRSTUVWXYZabcdefghijklmnopqrstuvwxyz0123456789+/"
 
+// c09ValidRunes: scalar values that record text may contain (everything except controls below U+0020):
+// U+FFFD itself (EF BF BD, a VALID encoding), DEL, U+0080, the ends of each encoding length, U+10FFFF.
+var c09ValidRunes = []rune{0xFFFD, 0x7F, 0x80, 0x20, 0x7E, 0x7FF, 0x800, 0xD7FF, 0xE000, 0xFFFF, 0x10000, 0x10FFFF, 'x', 'y', ' '}
+
+// c09BadPieces: byte sequences that make record text invalid: controls, invalid UTF-8 (lone bytes, surrogate
+// encodings, overlongs, beyond U+10FFFF, truncated sequences).
+var c09BadPieces = []string{"\x00", "\x01", "\t", "\r", "\x1f", "\xff", "\x80", "\xbf", "\xed\xa0\x80", "\xed\xbf\xbf", "\xc0\x80", "\xc1\xbf",
+	"\xe0\x80\x80", "\xf0\x80\x80\x80", "\xf4\x90\x80\x80", "\xf8\x88\x80\x80\x80", "\xe2\x82", "\xf0\x9f\x98", "\xef\xbf", "\n"}
+
 func c09ValidText(r *Rand) string {
 	n := 1 + r.Intn(3)
 	var b strings.Builder
 	for i := 0; i < n; i++ {
-		switch r.Intn(5) {
+		switch r.Intn(7) {
+		case 5, 6: // a line over the rune alphabet
+			for j := 1 + r.Intn(6); j > 0; j-- {
+				b.WriteRune(c09ValidRunes[r.Intn(len(c09ValidRunes))])
+			}
 		case 0:
 			b.WriteString("héllo wörld ☃ \U0001F600")
 		case 1:
@@ -255,7 +290,11 @@ func c09RecordMsg(r *Rand) (string, bool) {
 }
 
 func c09RecordText(r *Rand) (string, bool) {
-	switch r.Intn(8) {
+	switch r.Intn(10) {
+	case 8, 9: // a valid text with one invalid piece spliced in at a rune boundary or anywhere
+		t := c09ValidText(r)
+		i := r.Intn(len(t) + 1)
+		return t[:i] + c09BadPieces[r.Intn(len(c09BadPieces))] + t[i:], true
 	case 0:
 		return mutate(r, c09ValidText(r), c09TextMut), true
 	case 1:
@@ -354,6 +393,25 @@ func genC09(g *Gen, n int) {
 	g.Emit("tlog.sha256 "+hx("abc"), true, "sha")
 	g.Emit("tlog.storedhashes _", true, "store")
 	g.Emit("tlog.treehash 0 _", true, "treehash")
+	for _, L := range c09Lens { // every boundary length: leaf hash, a log containing such records, its tree hash
+		d := c09RandBytes(g.Rand, L)
+		g.Emit("tlog.recordhash "+hx(d), true, "leaf-boundary")
+		g.Emit("tlog.recordhash "+hx(strings.Repeat("a", L)), true, "leaf-boundary")
+		recs := hxList([]string{"short\n", d, "x", strings.Repeat("a", L)})
+		g.Emit("tlog.storedhashes "+recs, true, "store-boundary")
+		if L <= 4097 {
+			g.Emit("tlog.treehash 4 "+recs, true, "treehash-boundary")
+			g.Emit("tlog.treehash 2 "+recs, true, "treehash-boundary")
+		}
+	}
+	for _, c := range c09ValidRunes { // record text over every rune class
+		g.Emit(fmt.Sprintf("tlog.formatrecord 10 %s", hx("x"+string(c)+"y\n")), true, "formatrecord-runes")
+		g.Emit("tlog.parserecord "+hx("10\nx"+string(c)+"y\n\n"), true, "parserecord-runes")
+	}
+	for _, bad := range c09BadPieces {
+		g.Emit(fmt.Sprintf("tlog.formatrecord 10 %s", hx("x"+bad+"y\n")), true, "formatrecord-runes")
+		g.Emit("tlog.parserecord "+hx("10\nx"+bad+"y\n\n"), true, "parserecord-runes")
+	}
 	for i := 0; i < n; i++ {
 		switch g.Intn(20) {
 		case 0:
@@ -368,7 +426,7 @@ func genC09(g *Gen, n int) {
 		case 1, 2:
 			k := g.Intn(maxLen + 1)
 			tok, _ := c09RecTok(g.Rand, k)
-			if g.Chance(30) || k > 40 {
+			if g.Chance(30) || k > 40 || len(tok) > 16000 {
 				m := g.Intn(k + 3) // includes m > n: reader error
 				g.Emit(fmt.Sprintf("tlog.treehash %d %s", m, tok), m <= k, "treehash")
 			} else {
@@ -409,7 +467,11 @@ func genC09(g *Gen, n int) {
 			case 1:
 				g.Emit("tlog.marshaljson "+tlogHashHex(h), true, "json")
 			case 2:
-				g.Emit("tlog.recordhash "+hx(c09RandBytes(g.Rand, g.Intn(130))), true, "sha")
+				d := c09RandBytes(g.Rand, g.Intn(130))
+				if g.Chance(50) {
+					d = c09BoundaryRecord(g.Rand)
+				}
+				g.Emit("tlog.recordhash "+hx(d), true, "sha")
 			default:
 				g.Emit("tlog.nodehash "+tlogHashHex(h)+" "+tlogHashHex(c09RandHash(g.Rand)), true, "sha")
 			}
@@ -425,15 +487,106 @@ func genC09(g *Gen, n int) {
 
 // ---- oracle: the property itself on the implementation alone
 
+// c09DocValidText: the documented rule for record text, stated independently of the code (doc comment of
+// FormatRecord): valid UTF-8, no ASCII control characters below U+0020 other than newline, ends in a
+// terminating newline, no blank lines.
+func c09DocValidText(text string) bool {
+	if !utf8.ValidString(text) || !strings.HasSuffix(text, "\n") {
+		return false
+	}
+	if strings.HasPrefix(text, "\n") || strings.Contains(text, "\n\n") {
+		return false
+	}
+	for _, c := range text {
+		if c < 0x20 && c != '\n' {
+			return false
+		}
+	}
+	return true
+}
+
+// c09LeafOracle: RecordHash is the RFC 6962 leaf hash SHA-256(0x00 || data) (computed here with crypto/sha256
+// directly) and near-miss records (a record, its one-byte-shorter prefix, one byte appended) have distinct hashes.
+func c09LeafOracle(g *Gen, d string) {
+	g.Case("leaf")
+	op := "tlog.recordhash " + hx(d)
+	got := tlog.RecordHash([]byte(d))
+	if got != rfcLeaf(d) {
+		g.Fail("RecordHash is not SHA-256(0x00 || data)", fmt.Sprintf("len=%d", len(d)), op)
+	}
+	near := []string{d + "x", d + "\x00"}
+	if len(d) > 0 {
+		near = append(near, d[:len(d)-1], d[1:])
+	}
+	for _, e := range near {
+		if e != d && tlog.RecordHash([]byte(e)) == got {
+			g.Fail("distinct records have the same RecordHash", fmt.Sprintf("len=%d and len=%d", len(d), len(e)), op, "tlog.recordhash "+hx(e))
+		}
+	}
+}
+
+// c09RecordOracle: every text that is valid by the documented rule is accepted by FormatRecord; whatever
+// FormatRecord accepts is returned unchanged by ParseRecord together with the untouched rest; and the
+// well-formed message written by hand (id, newline, text, blank line) parses to the same.
+func c09RecordOracle(g *Gen, id int64, text, rest string) {
+	valid := c09DocValidText(text)
+	msg, err := tlog.FormatRecord(id, []byte(text))
+	fop := fmt.Sprintf("tlog.formatrecord %d %s", id, hx(text))
+	if valid {
+		g.Case("codec-valid-text")
+		if err != nil {
+			g.Fail("FormatRecord rejects a record text that is valid by the documented rule", fmt.Sprintf("text=%q", text), fop)
+		}
+		hand := fmt.Sprintf("%d\n%s\n%s", id, text, rest)
+		id2, text2, rest2, err2 := tlog.ParseRecord([]byte(hand))
+		if err2 != nil || id2 != id || string(text2) != text || string(rest2) != rest {
+			g.Fail("ParseRecord does not return a well-formed record with valid text unchanged", fmt.Sprintf("id=%d text=%q rest=%q err=%v", id, text, rest, err2), "tlog.parserecord "+hx(hand))
+		}
+	} else {
+		g.Case("codec-invalid-text")
+	}
+	if err == nil {
+		id2, text2, rest2, err2 := tlog.ParseRecord(append(append([]byte{}, msg...), rest...))
+		if err2 != nil || id2 != id || !bytes.Equal(text2, []byte(text)) || !bytes.Equal(rest2, []byte(rest)) {
+			g.Fail("ParseRecord(FormatRecord(id,text)+rest) != (id,text,rest)", fmt.Sprintf("id=%d text=%q rest=%q err=%v", id, text, rest, err2), fop, "tlog.parserecord "+hx(string(msg)+rest))
+		}
+	}
+}
+
+
 func oracleC09(g *Gen, n int) {
 	maxLen := 96
 	if thorough {
 		maxLen = 700
 	}
+	// (0) every boundary length: leaf hash, near-miss pairs, and a small log containing such a record
+	var sweep [][]string
+	for _, L := range c09Lens {
+		for _, d := range []string{strings.Repeat("a", L), c09RandBytes(g.Rand, L)} {
+			c09LeafOracle(g, d)
+			sweep = append(sweep, []string{"short\n", d, c09RandBytes(g.Rand, 5), d + "x"})
+		}
+	}
+	// the documented example texts of every rune class, through FormatRecord / ParseRecord
+	for _, c := range c09ValidRunes {
+		c09RecordOracle(g, 10, "x"+string(c)+"y\n", "")
+	}
+	for _, bad := range c09BadPieces {
+		c09RecordOracle(g, 10, "x"+bad+"y\n", "")
+	}
 	for i := 0; i < n; {
 		// (1) append records one at a time; layout, stored hashes, count, tree hashes
 		k := g.Intn(maxLen + 1)
 		recs := c09Records(g.Rand, k)
+		if len(sweep) > 0 {
+			recs, sweep = sweep[0], sweep[1:]
+			k = len(recs)
+		}
+		for _, d := range recs {
+			if g.Chance(20) {
+				c09LeafOracle(g, d)
+			}
+		}
 		tok := hxList(recs)
 		st, err := tlogBuild(recs)
 		if err != nil {
@@ -531,15 +684,7 @@ func oracleC09(g *Gen, n int) {
 			if g.Chance(50) {
 				rest = c09RandBytes(g.Rand, g.Intn(30))
 			}
-			msg, err := tlog.FormatRecord(id, []byte(text))
-			if err == nil {
-				id2, text2, rest2, err2 := tlog.ParseRecord(append(append([]byte{}, msg...), rest...))
-				if err2 != nil || id2 != id || !bytes.Equal(text2, []byte(text)) || !bytes.Equal(rest2, []byte(rest)) {
-					g.Fail("ParseRecord(FormatRecord(id,text)+rest) != (id,text,rest)", fmt.Sprintf("id=%d text=%q rest=%q err=%v", id, text, rest, err2), fmt.Sprintf("tlog.formatrecord %d %s", id, hx(text)), "tlog.parserecord "+hx(string(msg)+rest))
-				}
-			} else {
-				g.Case("codec-invalid-text")
-			}
+			c09RecordOracle(g, id, text, rest)
 			h2, err := tlog.ParseHash(h.String())
 			if err != nil || h2 != h {
 				g.Fail("ParseHash(h.String()) != h", tlogHashHex(h), "tlog.hashstring "+tlogHashHex(h), "tlog.parsehash "+hx(h.String()))
